@@ -705,6 +705,25 @@ impl<
     }
 }
 
+#[cfg(feature = "verif-hooks")]
+impl<K: Hash + Eq, V, KH: KeyHasher<K>, FH: BuildHasher, RH: BuildHasher, WH: BuildHasher>
+    WTinyLFUCache<K, V, KH, FH, RH, WH>
+{
+    /// Verification hook (feature `verif-hooks`): read-only views of (window, main, estimator).
+    #[doc(hidden)]
+    #[allow(clippy::type_complexity)]
+    pub fn verif_parts(
+        &self,
+    ) -> (
+        &LRUCache<K, V, WH>,
+        &SegmentedCache<K, V, FH, RH>,
+        &TinyLFU<K, KH>,
+    ) {
+        (&self.lru, &self.slru, &self.tinylfu)
+    }
+}
+
+
 #[cfg(test)]
 mod test {
     use core::hash::BuildHasher;
